@@ -126,23 +126,39 @@ def run(ctx):
 
     # (4) long random histories with adversarial hash distributions (code -> spec trace validation)
     hn, hk = (2000, 300) if ctx.quick else (8000, 2000)
-    hf = ctx.path("hist.ndjson")
-    ctx.vh(["c12-hist", "-n", str(hn), "-keys", str(hk), "-out", hf], timeout=3000)
-    r = ctx.tlc("C12Hist", "C12Hist.cfg", env={"VERIF_RECS": hf}, workers=1, timeout=3400, heap="8g")
-    got = [int(m) for m in re.findall(r'<<"CHECKED", (\d+)>>', r["out"])]
-    nev = sum(1 for _ in open(hf))
-    if r["error"] or r["rc"] != 0 or not got or got[0] != nev:
-        raise vlib.MachineryError("history validation failed:\n%s" % r["out"][-2000:])
-    ctx.states += r["states"]
-    ctx.transitions += r["transitions"]
-    hbad = [int(m) for m in re.findall(r'<<"BAD", (\d+)>>', r["out"])]
-    ctx.log("histories: %d events over %d keys x 5 hash distributions validated, %d rejected" % (nev, hk, len(hbad)))
-    if hbad:
-        evs = vlib.read_ndjson(hf)
-        first = evs[min(hbad) - 1]
-        ctx.violation("hist:dist=%d/op=%d" % (first["dist"], first["op"]),
-                      "event %d of the long history diverges from the ordered-map model: %s" % (first["n"], json.dumps(first)[:300]),
-                      {"hist_event": first, "seed": ctx.seed, "n": hn, "keys": hk})
+    import concurrent.futures
+    parts = {}
+    for part in ("random", "threshold"):
+        hf = ctx.path("hist-%s.ndjson" % part)
+        ctx.vh(["c12-hist", "-n", str(hn), "-keys", str(hk), "-out", hf, "-part", part], timeout=3000)
+        parts[part] = hf
+
+    def vhist(part):
+        return part, ctx.tlc("C12Hist", "C12Hist.cfg", env={"VERIF_RECS": parts[part]}, workers=1, timeout=3400, heap="8g", tag="hist-" + part)
+    nev = 0
+    with concurrent.futures.ThreadPoolExecutor(2) as ex:
+        for part, r in ex.map(vhist, list(parts)):
+            hf = parts[part]
+            got = [int(m) for m in re.findall(r'<<"CHECKED", (\d+)>>', r["out"])]
+            n1 = sum(1 for _ in open(hf))
+            if r["error"] or r["rc"] != 0 or not got or got[0] != n1:
+                raise vlib.MachineryError("history validation (%s) failed:\n%s" % (part, r["out"][-2000:]))
+            nev += n1
+            ctx.states += r["states"]
+            ctx.transitions += r["transitions"]
+            hbad = [int(m) for m in re.findall(r'<<"BAD", (\d+)>>', r["out"])]
+            ctx.log("histories (%s): %d events validated, %d rejected" % (part, n1, len(hbad)))
+            if hbad:
+                evs = vlib.read_ndjson(hf)
+                byn = {e["n"]: e for e in evs}
+                first = byn[min(hbad)]
+                # the scenario the first rejected event belongs to (events since the last reset)
+                start = max(e["n"] for e in evs if e["op"] == 0 and e["n"] <= first["n"])
+                scen = [e for e in evs if start <= e["n"] <= first["n"]]
+                ctx.violation("hist:%s/op=%d" % (part, first["op"]),
+                              "event %d diverges from the ordered-map model: %s (history since the last reset: %d operations)" % (
+                                  first["n"], json.dumps(first)[:300], len(scen)),
+                              {"hist_events": scen[-400:], "seed": ctx.seed, "n": hn, "keys": hk, "part": part})
 
     ctx.cov.update({"sequences_validated": nseq, "history_events_validated": nev,
                     "evaluations": total_edges * 2, "traces_validated_against_impl": total_edges * 2,
@@ -160,6 +176,20 @@ def run(ctx):
 
 def replay(ctx, path):
     d = json.load(open(path))["replay"]
+    if "part" in d:      # a history finding: regenerate the same seeded history and validate it again
+        ctx.seed = d["seed"]
+        hf = ctx.path("hist.ndjson")
+        ctx.vh(["c12-hist", "-n", str(d["n"]), "-keys", str(d["keys"]), "-out", hf, "-part", d["part"]])
+        r = ctx.tlc("C12Hist", "C12Hist.cfg", env={"VERIF_RECS": hf}, workers=1, timeout=3400, heap="8g")
+        bad = re.findall(r'<<"BAD", (\d+)>>', r["out"])
+        print("replay: %d events of the %s history rejected by the ordered-map model" % (len(bad), d["part"]))
+        return 1 if bad else 0
+    if "seq" in d:
+        f = ctx.path("seq.ndjson")
+        vlib.write_ndjson(f, [d["seq"]])
+        bad, _ = ctx.validate("C12Trace", "C12Trace.cfg", [f])
+        print("replay: recorded sequence %s" % ("rejected" if bad else "accepted"))
+        return 1 if bad else 0
     one = ctx.path("one.ndjson")
     open(one, "w").write(json.dumps(d["edge"]) + "\n")
     out1 = ctx.path("one.out")
